@@ -139,3 +139,71 @@ func zzC04(event int) {
 
 func ZZ_C04_PutVsJoin()  { zzC04(0) }
 func ZZ_C04_PutVsLeave() { zzC04(1) }
+
+// ZZ_C04_LeaveVsJoin: a graceful leave racing a join at the same node, with data. The member A of a ring of one
+// (or the entry member of a ring of two) holds an acknowledged key; J joins through A in one goroutine while A leaves
+// in another. As long as one of them remains in the ring afterwards, the acknowledged value must still be readable,
+// unchanged, through every remaining member after R maintenance rounds.
+func ZZ_C04_LeaveVsJoin() {
+	N := rt.Bound("N")
+	zzFK = 1
+	zzHashTab = nil
+	n := 2 + rt.Choose("members", N-1)
+	ring := zzNewRing(n)
+	w := zzNewWorld(ring)
+	for i := range w.nodes {
+		w.nodes[i].kv = memory.WithHashFn(chord.Hash)
+		w.nodes[i].KVProvider = w.nodes[i].kv
+		w.nodes[i].StabilizeInterval = 0
+	}
+	j := rt.Choose("joiner", n)
+	a := rt.Choose("leaver", n)
+	rt.Assume(a != j)
+	for i := range w.present {
+		w.present[i] = i != j
+	}
+	w.stabilised()
+	ctx := context.Background()
+	key := []byte("a")
+	old := []byte{rt.U8("old")}
+	rt.Assert(w.nodes[a].Put(ctx, key, old) == nil, "put-on-a-quiet-ring-is-acknowledged")
+
+	var wg sync.WaitGroup
+	joined, left := false, false
+	wg.Add(2)
+	go func() {
+		defer wg.Done()
+		joined = w.nodes[j].Join(w.nodes[a]) == nil
+	}()
+	go func() {
+		defer wg.Done()
+		w.nodes[a].Leave()
+		left = w.nodes[a].state.Get() == chord.Left
+	}()
+	wg.Wait()
+	w.present[j] = joined
+	w.present[a] = !left
+	if joined {
+		rt.Reach("joined")
+	}
+	if left {
+		rt.Reach("left")
+	}
+	if w.count() == 0 {
+		return // nobody remains: the statement promises nothing
+	}
+	for r := 0; r < rt.Bound("R"); r++ {
+		w.round(0)
+	}
+	for i, node := range w.nodes {
+		if !w.present[i] {
+			continue
+		}
+		got, err := node.Get(ctx, key)
+		rt.Assert(err == nil, "read-after-quiescence-succeeds")
+		if err == nil {
+			rt.Assert(len(got) == 1 && got[0] == old[0], "acknowledged-value-survives-the-racing-join-and-leave")
+		}
+	}
+	rt.Reach("end")
+}
